@@ -451,6 +451,7 @@ def run(ctx):
     check_duplicates(ctx)
     check_fresh_enums(ctx)
     check_index_dtypes(ctx)
+    check_expand_large(ctx)
     n = 700 * ctx.scale
     runs = []
     for _ in range(n):
@@ -483,6 +484,11 @@ def run(ctx):
             ctx.count("op:" + op[0] + ("/" + op[1][0] if len(op) > 1 else ""))
         ctx.case(l, len(frame) >= 2 and len(states) > 1 and states[1] != "E", sample={"line": l, "impl_states": states} if len(ops) >= 3 else None)
     ctx.assumptions.append("indices with repeated elements are outside the property's quantifier and are not generated")
+
+
+def check_expand_large(ctx):
+    import c12
+    c12.check_expand_large(ctx)
 
 
 def search(ctx):
